@@ -513,17 +513,51 @@ func c14r2(c *Ctx) {
 		a := "P:" + paramName(fn.Params[1])
 		nonEmpty := leAtom("len(Bytes(" + a + "))").addK(-1).String()
 		tbl := map[string]string{}
-		for _, r := range returnsOf(fn) {
-			if len(r.Results) == 2 && !isSuccessReturn(r) {
-				continue
+		// the returns, looking through a length helper called in return position (`return encodedSize(len(b))`)
+		type level struct {
+			env *Env
+			at  ssa.Instruction
+		}
+		type flat struct {
+			levels []level
+			env    *Env
+			val    ssa.Value
+		}
+		var flats []flat
+		var flatten func(env *Env, above []level, depth int)
+		flatten = func(env *Env, above []level, depth int) {
+			for _, r := range returnsOf(env.Fn) {
+				if len(r.Results) == 2 && !isSuccessReturn(r) {
+					continue
+				}
+				v := retval(r, 0)
+				lv := append(append([]level{}, above...), level{env, r})
+				if call, ok := v.(*ssa.Call); ok && depth < 3 {
+					if sc := call.Call.StaticCallee(); sc != nil && len(sc.Blocks) > 0 && sc.Pkg != nil && strings.HasPrefix(sc.Pkg.Pkg.Path(), modPath) && sc != env.Fn {
+						flatten(env.Sub(call, sc), lv, depth+1)
+						continue
+					}
+				}
+				flats = append(flats, flat{lv, env, v})
 			}
+		}
+		flatten(e, nil, 0)
+		cutAny := func(f flat, pred func(Fact) bool) bool {
+			for _, l := range f.levels {
+				if _, ok := l.env.CutAt(l.at, pred, nil); ok {
+					return true
+				}
+			}
+			return false
+		}
+		for _, f := range flats {
 			cls := "empty"
-			if _, ok := e.CutAt(r, nilPred(a), nil); ok {
+			if cutAny(f, nilPred(a)) {
 				cls = "nil"
-			} else if _, ok := e.CutAt(r, func(f Fact) bool { return f.Lin && f.LE.String() == nonEmpty }, nil); ok {
+			} else if cutAny(f, func(f Fact) bool { return f.Lin && f.LE.String() == nonEmpty }) {
 				cls = "non-empty"
 			}
-			v := e.LE(retval(r, 0)).String()
+			v := f.env.LE(f.val).String()
 			if old, dup := tbl[cls]; dup && old != v {
 				return nil, "two different lengths for case " + cls + ": " + old + " / " + v
 			}
